@@ -215,7 +215,7 @@ proofs = [
     Proof("FromHeader_bounded_q", [("TraceState::FromHeader", 1)],
           harness=H_FROM.replace("h_FromHeader_bounded", "h_FromHeader_bounded_q").replace("bool blank; bool second;", "bool blank = 0; bool second = 1;")
           .replace("char k1 = xc_kc(), k2 = xc_kc()", "char k1 = 'a', k2 = 'b'"), loop_contracts=False, unwind=10, level="bounded",
-          bound_note="the header a=V,b=W with symbolic one-byte values, plus two fixed malformed headers", timeout=600, contracts={"x": {}}),
+          bound_note="the header a=V,b=W with symbolic one-byte values, plus two fixed malformed headers", timeout=1500, contracts={"x": {}}),
     Proof("FromHeader_bounded", [("TraceState::FromHeader", 1)], harness=H_FROM, loop_contracts=False, unwind=12, level="bounded", tier="thorough",
           bound_note="headers of the shape k=v[ ],[ ]k=v with one-byte keys/values", timeout=3000, contracts={"x": {}}),
 ]
